@@ -60,6 +60,14 @@ text the hand-written model was written against) so that the Coq file still type
                              location's ACL; the other three arguments are stored on the result only (not observed)
   ACLDenied('<text>', acl, permission, principals, context)   DefaultDeny   (first argument a string literal)
   string literals            messages, not modelled (may only be stored in a variable or passed as above)
+
+=== DELEGATION WRAPPERS (ACLAuthorizationPolicy, the deprecated public wrapper) ==========================
+  def __init__(self): self.H = ACLHelper()                       (exactly this; H any attribute name)
+  def permits(self, c, ps, p): return self.H.permits(c, ps, p)   gen_policy_permits L ps p := gen_permits L ps p
+  def principals_allowed_by_permission(self, c, p): return self.H.principals_allowed_by_permission(c, p)
+                                                                 gen_policy_principals_allowed L p := gen_principals_allowed L p
+  every argument must be a parameter of the wrapper of the type the callee expects at that position (context,
+  principals, permission are told apart by position in the public IAuthorizationPolicy signature), positional only.
 """
 import ast
 import json
@@ -69,7 +77,10 @@ HERE = os.path.dirname(os.path.abspath(__file__))
 
 # source functions whose control flow is regenerated on every run (read by tools/coverage_map.py)
 TRANSLATED = ['pyramid/authorization.py:ACLHelper.permits',
-              'pyramid/authorization.py:ACLHelper.principals_allowed_by_permission']
+              'pyramid/authorization.py:ACLHelper.principals_allowed_by_permission',
+              'pyramid/authorization.py:ACLAuthorizationPolicy.__init__',
+              'pyramid/authorization.py:ACLAuthorizationPolicy.permits',
+              'pyramid/authorization.py:ACLAuthorizationPolicy.principals_allowed_by_permission']
 FALLBACK = os.path.join(HERE, 'gen_fallback.json')
 
 # ---- types of the translated fragment
@@ -858,6 +869,7 @@ def check_globals(tree, used, problems):
         'ACLDenied': [['class(_ACLDenied)']],
         '_ACLAllowed': [['from pyramid.security import ACLAllowed']],
         '_ACLDenied': [['from pyramid.security import ACLDenied']],
+        'ACLHelper': [['class']],
     }
     for nm in GLOBAL_VALUES:
         want[nm] = [['from pyramid.security import %s' % nm], ['from pyramid.security import %s' % nm, 'self-assign']]
@@ -874,6 +886,86 @@ def check_globals(tree, used, problems):
         elif got not in want.get(nm, []):
             problems.append('translator: module-level binding of %s in authorization.py is %s, expected %s'
                             % (nm, got or 'missing', want.get(nm)))
+
+
+# ---- delegation wrappers
+DELEG_CLASS = 'ACLAuthorizationPolicy'
+DELEG = [
+    dict(name='permits', gen='gen_policy_permits', callee='gen_permits', types=[CTX, SET, TEXT],
+         sig='(L : lineage) (ps : list text) (p : text) : decision'),
+    dict(name='principals_allowed_by_permission', gen='gen_policy_principals_allowed', callee='gen_principals_allowed',
+         types=[CTX, TEXT], sig='(L : lineage) (p : text) : list text'),
+]
+COQVAR = {CTX: 'L', SET: 'ps', TEXT: 'p'}
+
+
+def _body(fn):
+    b = list(fn.body)
+    if b and isinstance(b[0], ast.Expr) and isinstance(b[0].value, ast.Constant) and isinstance(b[0].value.value, str):
+        b = b[1:]
+    return b
+
+
+def _plain_params(fn, n):
+    a = fn.args
+    if fn.decorator_list or a.vararg or a.kwarg or a.kwonlyargs or a.defaults or a.kw_defaults \
+            or getattr(a, 'posonlyargs', []) or len(a.args) != n:
+        raise Problem('unexpected signature / decorators')
+    return [x.arg for x in a.args]
+
+
+def translate_wrappers(tree):
+    """-> {gen name: body text}; raises Problem"""
+    cls = [c for c in tree.body if isinstance(c, ast.ClassDef) and c.name == DELEG_CLASS]
+    if len(cls) != 1:
+        raise Problem('class %s not found exactly once' % DELEG_CLASS)
+    c = cls[0]
+    if c.bases or c.keywords:
+        raise Problem('class %s has base classes' % DELEG_CLASS)
+    if [u(d) for d in c.decorator_list] != ['implementer(IAuthorizationPolicy)']:
+        raise Problem('decorators of %s are %s' % (DELEG_CLASS, [u(d) for d in c.decorator_list]))
+    members = {}
+    for st in _body(c):
+        if not isinstance(st, ast.FunctionDef) or st.name in members:
+            raise Problem('member of %s outside the subset: %s' % (DELEG_CLASS, u(st).split('\n')[0][:60]))
+        members[st.name] = st
+    if sorted(members) != sorted(['__init__'] + [d['name'] for d in DELEG]):
+        raise Problem('members of %s are %s' % (DELEG_CLASS, sorted(members)))
+    # __init__
+    init = members['__init__']
+    (slf,) = _plain_params(init, 1)
+    b = _body(init)
+    ok = (len(b) == 1 and isinstance(b[0], ast.Assign) and len(b[0].targets) == 1
+          and isinstance(b[0].targets[0], ast.Attribute) and isinstance(b[0].targets[0].value, ast.Name)
+          and b[0].targets[0].value.id == slf and u(b[0].value) == 'ACLHelper()')
+    if not ok:
+        raise Problem('%s.__init__ is not `self.<attr> = ACLHelper()`' % DELEG_CLASS)
+    attr = b[0].targets[0].attr
+    if attr in members:
+        raise Problem('%s.__init__ overwrites the method %s' % (DELEG_CLASS, attr))
+    out = {}
+    for d in DELEG:
+        fn = members[d['name']]
+        params = _plain_params(fn, 1 + len(d['types']))
+        if len(set(params)) != len(params):
+            raise Problem('%s.%s: duplicate parameters' % (DELEG_CLASS, d['name']))
+        ptype = dict(zip(params[1:], d['types']))
+        b = _body(fn)
+        r = b[0].value if len(b) == 1 and isinstance(b[0], ast.Return) else None
+        ok = (isinstance(r, ast.Call) and not r.keywords and isinstance(r.func, ast.Attribute)
+              and r.func.attr == d['name'] and isinstance(r.func.value, ast.Attribute) and r.func.value.attr == attr
+              and isinstance(r.func.value.value, ast.Name) and r.func.value.value.id == params[0]
+              and len(r.args) == len(d['types']) and all(isinstance(x, ast.Name) for x in r.args))
+        if not ok:
+            raise Problem('%s.%s is not `return self.%s.%s(<parameters>)`' % (DELEG_CLASS, d['name'], attr, d['name']))
+        args = []
+        for x, want in zip(r.args, d['types']):
+            if ptype.get(x.id) != want:
+                raise Problem('%s.%s passes %s (a %s) where the helper expects the %s' % (
+                    DELEG_CLASS, d['name'], x.id, ptype.get(x.id, 'non-parameter'), want))
+            args.append(COQVAR[want])
+        out[d['gen']] = '%s %s' % (d['callee'], ' '.join(args))
+    return out
 
 
 def check_class(tree, problems):
@@ -953,6 +1045,20 @@ def translate_source(text):
         else:
             summary[gen] = 'translated from source (%d lines of Gallina)' % (body.count('\n') + 1)
         out.append('Definition %s %s :=\n  %s.\n' % (gen, spec['sig'], body))
+    wr = None
+    if tree is not None:
+        try:
+            wr = translate_wrappers(tree)
+            used.add('ACLHelper')
+        except Problem as e:
+            problems.append('translator: %s' % e)
+    for d in DELEG:
+        if wr is None:
+            summary[d['gen']] = 'FALLBACK (plain delegation)'
+        else:
+            summary[d['gen']] = 'translated from source (delegation)'
+        body = (wr or {}).get(d['gen']) or '%s %s' % (d['callee'], ' '.join(COQVAR[t] for t in d['types']))
+        out.append('Definition %s %s :=\n  %s.\n' % (d['gen'], d['sig'], body))
     if tree is not None:
         check_globals(tree, used, problems)
     return '\n'.join(out), problems, summary
